@@ -108,6 +108,51 @@ def residue_discipline(model: Model, run: Run, ex, fi) -> None:
     run.floor("incoming buffer reads", n_readers, 2)
 
 
+def chunk_size_is_not_judged(model: Model, run: Run, fi, rule: str = "L13-no-chunk-is-refused-for-its-size") -> None:
+    """L13: how the stream is cut into chunks - including empty chunks - is the transport's business: in receive (and the methods of
+    the session it hands the chunk to) no `raise` is guarded by the emptiness or the length of the chunk parameter itself.  (What
+    the *accumulated* bytes contain is judged by the decoder; a limit on the chunk is a dependence on the cutting.)"""
+    from ..anchors import reachable
+    fns = [f for f in reachable(model, fi, fi.module) if not isinstance(f.node, ast.Lambda) and f.cls is not None]
+    n = 0
+    for f in [fi] + [g for g in fns if g is not fi]:
+        ps = [p_ for p_ in f.params() if p_ not in ("self", "cls")]
+        if not ps:
+            continue
+        # the chunk: the first parameter of receive; in a callee, a parameter that receive's chunk is passed for
+        chunk = ps[0] if f is fi else None
+        if f is not fi:
+            for c in ast.walk(fi.node):
+                if isinstance(c, ast.Call) and isinstance(c.func, ast.Attribute) and isinstance(c.func.value, ast.Name) and c.func.value.id == "self" and c.func.attr == f.name:
+                    for i, a in enumerate(c.args):
+                        if isinstance(a, ast.Name) and a.id == fi.params()[1 if fi.params()[0] == "self" else 0] and i < len(ps):
+                            chunk = ps[i]
+        if chunk is None:
+            continue
+        if any(isinstance(x, ast.Name) and x.id == chunk and isinstance(x.ctx, ast.Store) for x in walk_no_nested(f.node)):
+            continue        # re-bound (e.g. to the joined buffer): tests on it are tests on the accumulated bytes
+        for st in walk_no_nested(f.node):
+            if not (isinstance(st, ast.If) and any(isinstance(b, ast.Raise) for b in st.body)):
+                continue
+            n += 1
+            t = st.test
+            sized = None
+            for x in ast.walk(t):
+                if isinstance(x, ast.UnaryOp) and isinstance(x.op, ast.Not) and isinstance(x.operand, ast.Name) and x.operand.id == chunk:
+                    sized = x
+                elif isinstance(x, ast.Call) and isinstance(x.func, ast.Name) and x.func.id == "len" and x.args and isinstance(x.args[0], ast.Name) and x.args[0].id == chunk:
+                    sized = x
+                elif isinstance(x, ast.Compare) and isinstance(x.left, ast.Name) and x.left.id == chunk and isinstance(x.comparators[0], ast.Constant) and x.comparators[0].value in (b"", ""):
+                    sized = x
+            if isinstance(t, ast.Name) and t.id == chunk:
+                sized = t
+            run.ob(rule, sized is None, {"function": f.name, "test": norm(t)[:60]})
+            if sized is not None:
+                run.fail(Finding(rule, f.qualname, norm(t)[:80], f"{f.name} raises when `{norm(t)[:60]}`: the chunk `{chunk}` is judged by its size, so the same stream is accepted "
+                                 "under one way of cutting it into chunks and refused under another (an empty chunk in the middle of a message)", model.loc(f.module, st)))
+    run.ob(rule, True, {"guarded_raises_examined": n})
+
+
 def check(model: Model, run: Run) -> None:
     ex = extraction(model)
     mr = may_raise(model)
@@ -124,6 +169,7 @@ def check(model: Model, run: Run) -> None:
     from ..readerrules import receive_anchor
     fi = receive_anchor(model)
     lemma_no_consume_on_failure(model, run, "C02")
+    chunk_size_is_not_judged(model, run, fi)
     from ..readerrules import lemma_consuming_methods_advance
     lemma_consuming_methods_advance(model, run)
     lemma_no_silent_clamp(model, run, mr)
